@@ -195,6 +195,9 @@ class FakeOptions(object):
     def getLogger(self, *a, **k):
         return RecLogger()
 
+    def get_autochildlog_name(self, name, identifier, channel):
+        return '/nonexistent/%s-%s-%s.log' % (name, channel, identifier)
+
 
 def listener_config(options, name, priority=999):
     return EventListenerConfig(
@@ -240,14 +243,19 @@ class Pool(object):
     """One real EventListenerPool with n real listener Subprocess objects."""
 
     def __init__(self, options, name, nlisteners, buffer_size=10, pool_events=(), handler=None,
-                 priority=999, proc_priority=999, group_class=None, proc_prefix=None):
+                 priority=999, proc_priority=999, group_class=None, proc_prefix=None,
+                 gconfig_class=None, maker=None):
         self.options = options
         # process names are unique within a group only: proc_prefix lets different pools use the same names
         self.pconfigs = [listener_config(options, '%s%d' % (proc_prefix or name, i), proc_priority) for i in range(nlisteners)]
-        self.gconfig = EventListenerPoolConfig(options, name, priority, self.pconfigs, buffer_size,
-                                               list(pool_events), handler or sdisp.default_handler)
+        self.gconfig = (gconfig_class or EventListenerPoolConfig)(options, name, priority, self.pconfigs, buffer_size,
+                                                                  list(pool_events), handler or sdisp.default_handler)
         # real EventListenerPool (subscribes itself); group_class may be a recording subclass
-        self.group = self.gconfig.make_group() if group_class is None else group_class(self.gconfig)
+        # maker: creates the group from the config some other real way (Supervisor.add_process_group)
+        if maker is not None:
+            self.group = maker(self.gconfig)
+        else:
+            self.group = self.gconfig.make_group() if group_class is None else group_class(self.gconfig)
         self.procs = [self.group.processes[c.name] for c in self.pconfigs]
         assert list(self.group.processes.values()) == self.procs
         self.write_log = []
